@@ -30,7 +30,7 @@ def crosshair_part(H):
     budget = 90 if H.quick else 400
     cmd = [sys.executable, '-W', 'ignore', '-m', 'crosshair', 'check', '--report_all', '--per_condition_timeout', str(budget),
            '%s:%d' % (SPEC, target + 2)]
-    env = dict(os.environ, PYTHONPATH='/verif')
+    env = dict(os.environ, PYTHONPATH=os.pathsep.join(['/verif'] + [p_ for p_ in os.environ.get('PYTHONPATH', '').split(os.pathsep) if p_]))
     try:
         p = subprocess.run(cmd, capture_output=True, text=True, timeout=budget * 2 + 120, env=env)
         out = p.stdout + p.stderr
